@@ -24,7 +24,7 @@ Base == {Encode5(h, q) : h \in Hrps, q \in SymSeqs}
 
 \* class alphabet for edits: charset letter (both cases), non-charset letter
 \* (both cases), separator, space, DEL, a byte >= 0x80
-Alphabet == {113, 81, 98, 66, 49, 32, 127, 200}
+Alphabet == {113, 81, 98, 66, 49, 32, 127, 200, 16, 25, 89}       \* ... and 0x10, 0x19 ('0'-0x20, '9'-0x20), 'Y'
 
 Subst(t, i, c) == [t EXCEPT ![i] = c]
 Insert(t, i, c) == SubSeq(t, 1, i) \o <<c>> \o SubSeq(t, i + 1, Len(t))    \* after position i (0..Len)
